@@ -368,6 +368,20 @@ def run_trace(events_path, name="trace", spec="trace/Trace_Events", workers=8, t
     return n, bad, r
 
 
+def run_drive(name, histories, steps, seed_offset=0):
+    """Random edit histories on the real buffers (harness binary `drive`), recorded as events."""
+    wdir = os.path.join(WORK, "drive", name)
+    shutil.rmtree(wdir, ignore_errors=True)
+    os.makedirs(wdir)
+    out = os.path.join(wdir, "events.ndjson")
+    r = sh([os.path.join(BIN, "drive"), str(seed() + seed_offset), str(histories), str(steps), out],
+           stdout=subprocess.PIPE, stderr=subprocess.PIPE, timeout=3600)
+    if r.returncode != 0:
+        raise ToolError("drive failed: " + r.stderr.decode(errors="replace")[-2000:])
+    log("drive  %-26s %9s events recorded (%d histories x <=%d calls)" % (name, r.stdout.decode().strip(), histories, steps))
+    return out
+
+
 # --------------------------------------------------------------------------------------
 # Known findings
 # --------------------------------------------------------------------------------------
@@ -515,15 +529,22 @@ class Check:
                 out.append(lst[0])
         return out
 
-    def add_trace(self, n, bad, r, label):
+    def add_trace(self, n, bad, r, label, charge=None):
         if r is not None:
             self.add_tlc(r, label)
         self.traces += n
         self.extra.setdefault("trace_validation", []).append({"label": label, "events": n, "non_conforming": len(bad)})
         for b in bad:
             ev = b["event"]
-            self.judge(ev, [{"props": [self.pid], "what": "trace.nonconforming." + str(ev.get("ev")),
-                             "event_line": b["nonconf"]}])
+            props = charge(ev, b.get("why", "unexpected")) if charge else [self.pid]
+            if self.pid not in props:
+                continue
+            fail = {"props": props, "what": "trace.nonconforming.%s.%s" % (ev.get("ev"), b.get("why", "")),
+                    "event_line": b["nonconf"]}
+            if b.get("expected"):
+                fail["expected_one_of"] = [as_text(x) if x else "" for x in b["expected"]]
+                fail["observed"] = as_text(ev.get("post")) if ev.get("post") else ""
+            self.judge(ev, [fail])
 
     def judge(self, case, fails):
         """Split the failed comparisons of one case into known findings and violations."""
